@@ -168,9 +168,33 @@ func (w *World) verifyOrder(sp *OrderSpec) (res *UnitResult) {
 	add("sources", desc, len(srcIssues) == 0)
 	// map-range loops
 	sort.Slice(outer, func(i, j int) bool { return funcKey(outer[i]) < funcKey(outer[j]) })
+	// a declaration may carry the text of the map it judged (Resolve#3@r.varInfo): loops are numbered in
+	// source order, so a loop added or removed above shifts the numbers, and without the text a
+	// declaration would silently pass to another loop
 	declared := map[string]bool{}
+	guards := map[string]string{}
 	for _, d := range sp.OrderFree {
-		declared[d] = false
+		key, guard := d, ""
+		if i := strings.Index(d, "@"); i >= 0 {
+			rest := d[i+1:]
+			cb := ""
+			if j := strings.Index(rest, "<-"); j >= 0 {
+				rest, cb = rest[:j], rest[j:]
+			}
+			key, guard = d[:i]+cb, rest
+		}
+		declared[key] = false
+		if guard != "" {
+			guards[key] = guard
+		}
+	}
+	guardOK := func(key string, r *ssa.Range) (string, bool) {
+		g, has := guards[key]
+		if !has {
+			return "", true
+		}
+		got := rangeOperandText(w, r)
+		return got, got == g
 	}
 	nLoops := 0
 	for _, o := range outer {
@@ -229,6 +253,10 @@ func (w *World) verifyOrder(sp *OrderSpec) (res *UnitResult) {
 					pid := id + "<-" + cf
 					if _, isDecl := declared[pid]; isDecl {
 						declared[pid] = true
+						if got, ok := guardOK(pid, l.r); !ok {
+							add("order/"+pid, "the order-free declaration "+pid+" was made for a loop over "+guards[pid]+", but loop "+id+" at "+where+" ranges over "+got+": the declaration no longer fits the code", false)
+							continue
+						}
 						l := "order sweep: map-range loop " + id + " (" + where + ") calling " + cf + " per entry is declared order-free (author's judgement)"
 						res.Ledger = append(res.Ledger, l)
 						x.ledger[l] = true
@@ -240,6 +268,10 @@ func (w *World) verifyOrder(sp *OrderSpec) (res *UnitResult) {
 			default:
 				if _, isDecl := declared[id]; isDecl {
 					declared[id] = true
+					if got, ok := guardOK(id, l.r); !ok {
+						add("order/"+id, "the order-free declaration "+id+" was made for a loop over "+guards[id]+", but the loop at "+where+" ranges over "+got+": the declaration no longer fits the code", false)
+						continue
+					}
 					l := "order sweep: map-range loop " + id + " (" + where + ") is declared order-free (author's judgement; shape check says: " + why + ")"
 					res.Ledger = append(res.Ledger, l)
 					x.ledger[l] = true
